@@ -318,6 +318,8 @@ class _ListDict_(object):
         if self.weighted:
             weight = self.weight.pop(choice)
             self._total_weight -= weight
+            if len(self.items) == 0:
+                self._total_weight = 0 #drop accumulated rounding error: an empty set has total weight exactly 0
             if weight == self.max_weight:  
                 #if we find ourselves in this case often
                 #it may be better just to let max_weight be the
